@@ -66,6 +66,20 @@ def make_data(spec, seed):
     raise ValueError(kind)
 
 
+def _same_top(best, alts, Y):
+    """Do both halves of the best reallocation prefer the same single switch target? (precondition of KF-C08-2)"""
+    if best is None or best["family"] != "realloc":
+        return None
+    cut = [a for a in alts if a["family"] == "switch" and (a["leaf"], a["feature"], a["threshold"]) ==
+           (best["leaf"], best["feature"], best["threshold"])]
+    kk = int(Y[:, best["leaf"]].argmax())
+    lefts = {a["left_target"]: a["gain"] for a in cut if a["right_target"] == kk}
+    rights = {a["right_target"]: a["gain"] for a in cut if a["left_target"] == kk}
+    if lefts and rights:
+        return bool(max(lefts, key=lefts.get) == max(rights, key=rights.get))
+    return None
+
+
 def check_call(K, X, Y, Z, n_leaves, n_clusters, K_max, min_leaf, leaves, feats, ctx, shadow=False):
     """One call of the real find_best_split against the oracle.  Returns (split dict, alternatives, violations)."""
     fbs = _fbs()
@@ -104,15 +118,7 @@ def check_call(K, X, Y, Z, n_leaves, n_clusters, K_max, min_leaf, leaves, feats,
             v.append(violation("gain_mismatch", dict(detail, claimed=s["gain"], actual=act),
                                returned_family=fam, involves_double_star=(fam == "double_star"), **base))
         if best is not None and best["gain"] > s["gain"] + tol:
-            same_top = None
-            if best["family"] == "realloc":
-                cut = [a for a in alts if a["family"] == "switch" and (a["leaf"], a["feature"], a["threshold"]) ==
-                       (best["leaf"], best["feature"], best["threshold"])]
-                kk = int(Y[:, best["leaf"]].argmax())
-                lefts = {a["left_target"]: a["gain"] for a in cut if a["right_target"] == kk}
-                rights = {a["right_target"]: a["gain"] for a in cut if a["left_target"] == kk}
-                if lefts and rights:
-                    same_top = bool(max(lefts, key=lefts.get) == max(rights, key=rights.get))
+            same_top = _same_top(best, alts, Y)
             non_ds = [a["gain"] for a in alts if a["family"] != "double_star"]
             non_re = [a["gain"] for a in alts if a["family"] != "realloc"]
             v.append(violation("not_best", dict(detail, best_alternative=best, returned_actual_gain=act),
@@ -124,9 +130,11 @@ def check_call(K, X, Y, Z, n_leaves, n_clusters, K_max, min_leaf, leaves, feats,
     else:
         if best is not None and best["gain"] > tol:
             non_ds = [a["gain"] for a in alts if a["family"] != "double_star"]
+            non_re = [a["gain"] for a in alts if a["family"] != "realloc"]
             v.append(violation("missed_positive_gain", dict(detail, best_alternative=best), best_family=best["family"],
                                involves_double_star=(best["family"] == "double_star"), returned_family="none",
-                               returned_gain_exact=True,
+                               returned_gain_exact=True, best_realloc_halves_prefer_same_target=_same_top(best, alts, Y),
+                               returned_beats_all_non_realloc=bool(not non_re or max(non_re) <= tol),
                                returned_beats_all_non_double_star=bool(not non_ds or max(non_ds) <= tol), **base))
     return s, alts, v
 
